@@ -791,6 +791,11 @@ fn corpus() -> Vec<Case> {
 }
 
 fn random_case(rng: &mut Rng) -> Case {
+    if rng.chance(1, 8) {
+        // grammars whose item maps have colliding keys and whose states are merged, split and orphaned
+        let text = if rng.chance(1, 4) { grammar::pager_orphan_family(rng) } else { grammar::general_contexts(rng) };
+        return Case { kind: rng.below(2), lex: lexer_for(&text), text, origin: "contexts".to_string() };
+    }
     let cfg = GenCfg { precs: rng.chance(1, 2), ..GenCfg::default() };
     let mut g = grammar::random_grammar(rng, &cfg);
     if rng.chance(1, 3) {
